@@ -229,4 +229,25 @@ theorem C03_claim_max_wraps_any (n : Node) (wall t0 : Nat) (prune : Bool) (hl : 
   dsimp only
   rw [hw]
 
+/-! ### over whole histories of a freshly created node (no invariant hypothesis left) -/
+
+/-- **While a member has not begun leaving it always lists itself as alive** — for every history
+from `Create` (any name, configuration) that contains no Leave, Shutdown or memberlist death notice of
+the local node; every gossip / merge / force-leave / prune claim about it, every reaper tick and
+every scheduling of the refuting goroutine is allowed.  `BookInv` is discharged by C15. -/
+theorem C03_history_self_alive (name : Name) (cfg : Config) (ops : List Op)
+    (hops : ∀ op ∈ ops, departs name op = false) :
+    selfStatus (run (Node.init name cfg) ops) = some .alive ∧ (run (Node.init name cfg) ops).life = .alive := by
+  apply C03_self_alive (Node.init name cfg) ops (SerfProofs.NodeBook.inv_init name cfg) rfl _ hops
+  simp [selfStatus, statusOf, Node.init, alookup_cons]
+
+/-- at every point of such a history (every prefix) -/
+theorem C03_history_self_alive_prefix (name : Name) (cfg : Config) (ops : List Op) (k : Nat)
+    (hops : ∀ op ∈ ops, departs name op = false) :
+    selfStatus (run (Node.init name cfg) (ops.take k)) = some .alive :=
+  (C03_history_self_alive name cfg (ops.take k) (fun op ho => hops op (List.mem_of_mem_take ho))).1
+
+example : selfStatus (run (Node.init "self" {}) [.leaveMsg "self" 7 true 0, .runPending 0, .forceLeave "self" true 0,
+    .merge 3 [("self", 40)] ["self"] 0, .reap 1000 (fun _ t => t), .runPending 0, .runPending 0]) = some .alive := by decide
+
 end SerfProofs.C03
